@@ -138,6 +138,33 @@ def _run_async(history, early=None):
                 ref = apply_ref(ref, recs)
             n_statp = len(arg)
             rig.loop.run_for(1.2)
+        elif kind == "BURST":
+            for recs in arg:
+                rig.inject_statp(recs)
+                ref = apply_ref(ref, recs)
+            n_statp = len(arg)
+            rig.loop.run_for(len(arg) * 0.25 + 3.0)
+        elif kind == "RECONNECT":
+            # the SAME GeckoAsyncSpa object is disconnected and connected again (what a client that manages the spa
+            # object itself does); the spa serves its current block in the new handshake
+            rig.peer.set_block(spa_blk)
+            with rig.loop.running():
+                t = rig.loop.create_task(rig.spa.disconnect(), name="HARNESS:disconnect")
+            rig.loop.run_for(10.0, t.done)
+            with rig.loop.running():
+                t = rig.loop.create_task(rig.spa.connect(), name="HARNESS:connect")
+            rig.loop.run_for(90.0, t.done)
+            if not t.done() or t.exception() is not None or not rig.spa.is_connected:
+                why = ("reconnect", f"second connect() on the same spa object failed: {t!r}")
+                break
+            for task in rig.tasks._tasks:
+                if task.get_name() in ("SPA:Ping loop", "SPA:Refresh loop") and not task.done():
+                    task.cancel()
+            rig.loop.run_for(0.5)
+            rig.client_addr = rig.spa._transport.addr
+            rig.mark = len(rig.net.sent)
+            ref = spa_blk
+            rig.loop.run_for(0.3)
         elif kind in ("SPA+REFRESH", "REFRESH"):
             spa_blk = apply_ref(spa_blk, arg)
             rig.peer.set_block(spa_blk)
@@ -237,6 +264,12 @@ def _run_threaded(history, early=None):
                 ref = apply_ref(ref, recs)
             n_statp = len(arg)
             rig.run_for(0.8)
+        elif kind == "BURST":
+            for recs in arg:
+                rig.inject(frame(SPA_ID, CLIENT_ID, statp(recs)))
+                ref = apply_ref(ref, recs)
+            n_statp = len(arg)
+            rig.run_for(len(arg) * 0.25 + 3.0)
         elif kind in ("SPA+REFRESH", "REFRESH", "P-MID-REFRESH"):
             if kind != "P-MID-REFRESH":
                 spa_blk = apply_ref(spa_blk, arg)
@@ -357,6 +390,34 @@ def _msg_job(job):
     return len(msgs), bad, ends
 
 
+def _burst_job(job):
+    kind, n, pre = job
+    _init_alpha()
+    lib.reset_library()
+    p, p1, q = _POS["ppq"]
+    msgs = [[(p if i % 2 else q, bytes([i % 256, (i * 7) % 256]))] + ([(p1, bytes([i % 251, 1]))] if i % 3 == 0 else []) for i in range(n)]
+    hist = ([("P-MID-REFRESH", [(p, B)])] if pre == "refresh" else []) + [("BURST", msgs)]
+    why, step, end = (_run_async if kind == "async" else _run_threaded)(hist)
+    if why:
+        return (f"C05|{kind}|{why[0]}|burst", f"{kind} client, {n} partial updates arriving back to back"
+                                               f"{' right after a refresh' if pre else ''}: {why[1]}",
+                {"kind": kind, "burst": n, "pre": pre}), end
+    return None, end
+
+
+def _reconnect_job(idxs):
+    _init_alpha()
+    lib.reset_library()
+    alpha = _ALPHA["async"]
+    hist = [alpha[1], ("RECONNECT", [])] + [alpha[i] for i in idxs]
+    why, step, end = _run_async(hist)
+    if why:
+        return (f"C05|async|{why[0]}|after-reconnect", f"async client, [P, disconnect+connect of the same spa object] then "
+                                                       f"{[alpha[i][0] for i in idxs]}: at step {step}: {why[1]}",
+                {"kind": "async", "reconnect": list(idxs)}), end
+    return None, end
+
+
 def _init_alpha():
     if _ALPHA:
         return
@@ -442,6 +503,26 @@ def run(ctx):
         if res:
             ctx.violation(res[0].replace("|event=", "|long-run|event="), res[1][:400], {"kind": kind, "history": list(hist)})
     ctx.set("long_run_updates", 840)
+    # bursts: many partial updates pending at once (more than any fixed queue bound a refresh plus traffic would fit in)
+    bjobs = [(kind, n, pre) for kind in ("async", "threaded") for n in ((30, 70, 150) if ctx.quick else (30, 70, 90, 150, 300, 600))
+             for pre in (None, "refresh")]
+    for res, end in core.pmap(ctx, _burst_job, bjobs, chunksize=1):
+        traces += 1
+        transitions += 1
+        states.add(("burst", end))
+        if res:
+            ctx.violation(*res)
+    ctx.set("burst_runs", len(bjobs))
+    # the same spa object connected a second time, then every event (and every pair of events)
+    n_alpha = len(_ALPHA["async"])
+    rjobs = [(i,) for i in range(n_alpha)] + [(i, j) for i in range(n_alpha) for j in range(n_alpha) if not ctx.quick or (i + j) % 3 == 0]
+    for res, end in core.pmap(ctx, _reconnect_job, rjobs, chunksize=4):
+        traces += 1
+        transitions += 1
+        states.add(("reconnect", end))
+        if res:
+            ctx.violation(*res)
+    ctx.set("reconnect_histories", len(rjobs))
     ctx.set("states", len(states))
     ctx.set("transitions", transitions)
     ctx.set("traces_validated_against_impl", traces)
@@ -457,7 +538,15 @@ def run(ctx):
 
 def replay(ctx, data):
     _init_alpha()
-    if "message" in data:
+    if "burst" in data:
+        res, _ = _burst_job((data["kind"], data["burst"], data.get("pre")))
+        if res:
+            ctx.violation(*res)
+    elif "reconnect" in data:
+        res, _ = _reconnect_job(tuple(data["reconnect"]))
+        if res:
+            ctx.violation(*res)
+    elif "message" in data:
         m = [(pos, d) for pos, d in data["message"]]
         hist = ([("SPA+REFRESH", [(_POS["ppq"][0], C)])] if data.get("pre") else []) + [("P", m)]
         why, step, end = (_run_async if data["kind"] == "async" else _run_threaded)(hist)
